@@ -10,13 +10,15 @@
    [C05_in_domain_meaning]): comparisons whose difference fits the bitlength, == on operands that are equal or differ by a
    non-multiple of p, products, k-bit decompositions of values in [0, 2^k) -- in unguarded code with error checking on, for
    operands that mention allocated variables only.
-   NOT proved in Coq: the dispatch over operand kinds (int / bool / reflected operands), shifts, bitwise operators on whole
+   At the operator level (through the Python operator dispatch of Model/Api.v, Proofs/OpValues.v): x < y, x <= y, x == y,
+   x * y, x // y, x % y on two secret integers, and x < k, k < y (reflected), x // k with an int k (the C05_op_ theorems).
+   NOT proved in Coq: the remaining operand-kind combinations (bool, other reflected operators), shifts, bitwise operators on whole
    numbers, powers, abs, division inside the domain; they are decided by the differential check of the real code against a
    plain-integer reference on an operator x operand-kind matrix and random programs. *)
 From Coq Require Import ZArith List Bool Lia Znumtheory.
 From PySnark.Base Require Import FieldZ Bits.
 From PySnark.Model Require Import Lc Sym Good Gadgets Api Prog.
-From PySnark.Proofs Require Import Meta Wp WpBase FieldOk GadgetsOK Values Complete NoRaise NoRaiseGadgets.
+From PySnark.Proofs Require Import Meta Wp WpBase FieldOk GadgetsOK Values Complete NoRaise NoRaiseGadgets OpValues.
 Import ListNotations.
 Open Scope Z_scope.
 
@@ -58,6 +60,28 @@ Theorem C05_to_bits : forall x k, returns (to_bits x k) s sg (fun bs sg' => map 
 Proof. exact (to_bits_value ins ig s sg I). Qed.
 Theorem C05_select : forall cnd t f, returns (ite_lc cnd t f) s sg (fun r sg' => rv r sg' = if v cnd =? 1 then v t else if v cnd =? 0 then v f else v f + v cnd * (v t - v f)).
 Proof. exact (select_value ins ig s sg I). Qed.
+
+(* ---- the same at the level of the Python operators (operator dispatch included) ---- *)
+Local Notation isb := (OpValues.is_bool ins ig).
+Local Notation islc := (OpValues.is_lc ins ig).
+Theorem C05_op_lt : forall x y, returns (pyop c OLt (PLC x) (PLC y)) s sg (isb (fun r => r = b2z (v x <? v y))).
+Proof. exact (op_lt ins ig c s sg I Chk). Qed.
+Theorem C05_op_le : forall x y, returns (pyop c OLe (PLC x) (PLC y)) s sg (isb (fun r => r = b2z (v x <=? v y))).
+Proof. exact (op_le ins ig c s sg I Chk). Qed.
+Theorem C05_op_eq : forall x y, returns (pyop c OEq (PLC x) (PLC y)) s sg (isb (fun r => r = b2z (v x =? v y))).
+Proof. exact (op_eq ins ig (field_ok_prime p Hp) c s sg I). Qed.
+Theorem C05_op_mul : forall x y, returns (pyop c OMul (PLC x) (PLC y)) s sg (islc (fun r => r = v x * v y)).
+Proof. exact (op_mul ins ig c s sg I). Qed.
+Theorem C05_op_floordiv : forall x y, returns (pyop c OFloorDiv (PLC x) (PLC y)) s sg (islc (fun r => r = v x / v y)).
+Proof. exact (op_floordiv ins ig c s sg I). Qed.
+Theorem C05_op_mod : forall x y, returns (pyop c OMod (PLC x) (PLC y)) s sg (islc (fun r => r = v x mod v y)).
+Proof. exact (op_mod ins ig c s sg I). Qed.
+Theorem C05_op_lt_secret_int : forall x k, returns (pyop c OLt (PLC x) (PInt k)) s sg (isb (fun r => r = b2z (v x <? k))).
+Proof. exact (op_lt_int_right ins ig c s sg I Chk). Qed.
+Theorem C05_op_lt_int_secret : forall k y, returns (pyop c OLt (PInt k) (PLC y)) s sg (isb (fun r => r = b2z (k <? v y))).
+Proof. exact (op_lt_int_left ins ig c s sg I Chk). Qed.
+Theorem C05_op_floordiv_secret_int : forall x k, returns (pyop c OFloorDiv (PLC x) (PInt k)) s sg (islc (fun r => r = v x / k)).
+Proof. exact (op_floordiv_int ins ig c s sg I). Qed.
 End C05.
 
 (* ---- inside the documented domain the operations do not raise (and return the Python value) ---- *)
@@ -104,6 +128,8 @@ Example C05_example :
   raised t = None /\ map (fun o => snd (fst o)) (outs t) = [-7; 2; 2; -4; 1; 1; -14; 0; 0].
 Proof. vm_compute. split; reflexivity. Qed.
 
+Print Assumptions C05_op_lt.
+Print Assumptions C05_op_lt_int_secret.
 Print Assumptions C05_lt_in_domain.
 Print Assumptions C05_eq_in_domain.
 Print Assumptions C05_lt.
